@@ -65,7 +65,24 @@ def fold_tools(ctx):
     vals = [b"", b"", b"a", b"b", b"caf\xc3\xa9", b"x y", b"0"]
     lines = list(dict.fromkeys(b"\t".join(rng.choice(vals) for _ in range(4)) for _ in range(120)))
     data = b"".join(l + b"\n" for l in lines)
-    for spec, idx in (("1", [0]), ("2", [1]), ("1,3", [0, 2]), ("2,4", [1, 3]), ("4,1", [0, 3]), ("1,2,4", None)):
+    def merged(spec):
+        """the ranges the list stands for: items sorted, touching neighbours merged (every run of them, however long)"""
+        rs = []
+        for it in spec.split(","):
+            a, sep, b = it.partition("-")
+            lo = int(a) - 1 if a else 0
+            hi = (int(b) if b else 10 ** 9) if sep else lo + 1
+            rs.append([lo, hi])
+        rs.sort()
+        out = [rs[0]]
+        for r in rs[1:]:
+            if out[-1][1] == r[0]:
+                out[-1][1] = r[1]
+            else:
+                out.append(r)
+        return out
+    for spec in ("1", "2", "1,3", "2,4", "4,1", "1,2,4", "1,2,3", "3,2,1", "1,2,3,4", "2,3,4", "1-2,3-4", "1,2,3-", "2,3,4-", "1,3,4"):
+        idx = merged(spec)
         n = rng.choice([13, 16])
         wd = os.path.join(ctx.tmp, "foldshard")
         shutil.rmtree(wd, ignore_errors=True)
@@ -80,7 +97,7 @@ def fold_tools(ctx):
         for l in lines:
             f = l.split(b"\t")
             # ranges after DefragmentFields: sorted; adjacent fields merge into one range that includes the delimiter
-            pieces = [f[0] + b"\t" + f[1], f[3]] if idx is None else [f[i] for i in idx]
+            pieces = [b"\t".join(f[b_:e_]) for b_, e_ in idx if b_ < len(f)]
             h = 47849374332489
             for pc in pieces:
                 h = int(pvlib.run_lines(pvlib.PVDRIVER, [f"murmur.spec.hash {h} {hx(pc)} 0"])[0].split()[1])
